@@ -264,6 +264,24 @@ def run(case, tmp):
         pv = data.flat[pc]
         check_data(np.ascontiguousarray(pv.reshape(gc.nrows, gc.ncols)),
                    gc.data, "clip vs parent values at coinciding centres")
+        # the clipped grid (it carries parent bookkeeping) round-trips too
+        gd = Grid.from_dict(json.loads(json.dumps(
+            gc.to_dict(), default=lambda o: o.item()
+            if hasattr(o, "item") else str(o))))
+        check_meta(gc, gd, "clip -> to_dict/json/from_dict")
+        gcl = gc.clone()
+        check_meta(gc, gcl, "clip -> clone")
+        check_data(gc.data, gcl.data, "clip -> clone")
+        fclip = tmp / "clipped.bil"
+        gc.save(fclip)
+        gcs = Grid.from_header(fclip)
+        check_meta(gc, gcs, "clip -> save/from_header")
+        check_data(gc.data, gcs.data, "clip -> save/from_header")
+        for att in ("rows_start", "rows_end", "cols_start", "cols_end"):
+            if getattr(gcs, "parentgrid_" + att, None) != \
+                    getattr(gc, "parentgrid_" + att):
+                raise Violation(f"clip -> save/from_header loses the "
+                                f"parent bookkeeping ({att})")
         labels.append("clip")
     else:
         labels.append("clip:corners-moved-by-rounding")
